@@ -597,43 +597,7 @@ func checkC05(c *Ctx) Meta {
 			}
 		}
 	}
-	if f := c.MustFn("C05-BIND", "poc/wallet/keystore", "(*AddrManager).updatePrivKeys"); f != nil {
-		key := "updatePrivKeys:key-rederived-from-own-path"
-		var st *ssa.Store
-		for _, a := range fieldAccesses(f) {
-			if a.Kind == "store" && a.Type == tManagedAddr && a.Field == "privKey" {
-				st = a.In.(*ssa.Store)
-			}
-		}
-		ok := false
-		why := "no store to ManagedAddress.privKey"
-		if st != nil {
-			sl := backSlice(st.Val)
-			// index: Child(mAddr.derivationPath.Index) of the same mAddr that is stored into
-			var idxChild *ssa.Call
-			for _, cl := range sl.callsTo("(*" + pkgHD + ".ExtendedKey).Child") {
-				if backSlice(callArgs(cl)[0]).hasField(tDerivPath, "Index") {
-					idxChild = cl
-				}
-			}
-			if idxChild == nil {
-				why = "the key is not derived with the entry's own index"
-			} else {
-				base := st.Addr.(*ssa.FieldAddr).X
-				sameEntry := backSlice(callArgs(idxChild)[0]).has(base) || sameOriginValue(f, fieldBaseOf(callArgs(idxChild)[0]), base)
-				// branch selection
-				recv := callRecv(idxChild)
-				okBranch, whyB := branchPolarity(f, recv)
-				ok = sameEntry && okBranch
-				why = fmt.Sprintf("same-entry=%v branch-selection=%v (%s)", sameEntry, okBranch, whyB)
-			}
-		}
-		if ok {
-			c.OK("C05-BIND", key, c.Pos(st.Pos()), "mAddr.privKey = (Branch==External ? externalBranchKey : internalBranchKey).Child(mAddr.derivationPath.Index)")
-		} else {
-			c.Bad("C05-BIND", key, c.Pos(f.Pos()), "the private key cached for an address is not the key of that address's own derivation path: "+why)
-		}
-	}
+	checkRederiveOwnPath(c, "C05-BIND")
 	if f := c.Fn("poc/wallet/keystore", "(*AddrManager).nextAddresses"); f != nil {
 		checkIndexRecording(c, f, "C05-BIND", "nextAddresses")
 	}
@@ -992,6 +956,49 @@ func checkC06Found(c *Ctx) {
 			c.Bad(rule, key, c.Pos(f.Pos()), "the ordinal comparison passes an operand through the narrowing conversion "+lossy+": a file whose ordinal differs from the wallet's by a multiple of 2^32 is taken for the key's plot")
 		default:
 			c.OK(rule, key, c.Pos(f.Pos()), "file ordinal == wallet ordinal, compared without narrowing")
+		}
+	}
+}
+
+
+// checkRederiveOwnPath: at unlock each address's private key is re-derived from that address's own
+// (branch, index): the branch test selects the branch key of the recorded branch (shared by C05 and C18).
+func checkRederiveOwnPath(c *Ctx, rule string) {
+	if f := c.MustFn(rule, "poc/wallet/keystore", "(*AddrManager).updatePrivKeys"); f != nil {
+		key := "updatePrivKeys:key-rederived-from-own-path"
+		var st *ssa.Store
+		for _, a := range fieldAccesses(f) {
+			if a.Kind == "store" && a.Type == tManagedAddr && a.Field == "privKey" {
+				st = a.In.(*ssa.Store)
+			}
+		}
+		ok := false
+		why := "no store to ManagedAddress.privKey"
+		if st != nil {
+			sl := backSlice(st.Val)
+			// index: Child(mAddr.derivationPath.Index) of the same mAddr that is stored into
+			var idxChild *ssa.Call
+			for _, cl := range sl.callsTo("(*" + pkgHD + ".ExtendedKey).Child") {
+				if backSlice(callArgs(cl)[0]).hasField(tDerivPath, "Index") {
+					idxChild = cl
+				}
+			}
+			if idxChild == nil {
+				why = "the key is not derived with the entry's own index"
+			} else {
+				base := st.Addr.(*ssa.FieldAddr).X
+				sameEntry := backSlice(callArgs(idxChild)[0]).has(base) || sameOriginValue(f, fieldBaseOf(callArgs(idxChild)[0]), base)
+				// branch selection
+				recv := callRecv(idxChild)
+				okBranch, whyB := branchPolarity(f, recv)
+				ok = sameEntry && okBranch
+				why = fmt.Sprintf("same-entry=%v branch-selection=%v (%s)", sameEntry, okBranch, whyB)
+			}
+		}
+		if ok {
+			c.OK(rule, key, c.Pos(st.Pos()), "mAddr.privKey = (Branch==External ? externalBranchKey : internalBranchKey).Child(mAddr.derivationPath.Index)")
+		} else {
+			c.Bad(rule, key, c.Pos(f.Pos()), "the private key cached for an address is not the key of that address's own derivation path: "+why)
 		}
 	}
 }
